@@ -19,3 +19,8 @@ claim("C02", "exploration", "Exhaustive enumeration of short byte strings + Hypo
       "their truncated/extended/bit-flipped/duplicated neighbours and an atheris campaign are fed to UDSResponse.parse_dynamic; whatever is accepted must re-encode to the "
       "received bytes and expose the values at the ISO byte positions. Exploration beyond the exhaustively enumerated short strings.",
       "Trusts the reference response decoder (vf/refcodec.py). Rejection (any exception) counts as clean refusal, as parse_pdu maps it to MalformedResponse.")
+claim("C03", "exploration", "Hypothesis-generated (request, reply) pairs built by a reference codec, classified by a reference matcher written from the statement; exhaustive NRC table",
+      "For every modelled request class (typed, wrapped in RawRequest, and requests that stay raw) genuine replies, negatives naming the same/another service with valid and "
+      "invalid codes and lengths, replies of other services, echo-changed and length-broken replies are generated; helpers.parse_pdu must accept / raise RequestResponseMismatch / "
+      "raise MalformedResponse as the reference matcher says. The NRC -> exception-class table is enumerated exhaustively. Exploration over an unbounded pair space.",
+      "Trusts the reference matcher and reply builders (vf/refcodec.py). Abstains where the statement defines no echo (requests that stay raw) and between mismatch/malformed when a changed echo also breaks the format.")
